@@ -20,6 +20,9 @@ parse_tree = L.UF('parse_tree', I, Val)         # text id -> tree (ObjV) or None
 parse_fails = L.UF('parse_fails', I, B)          # text id -> PARSE raises
 token_at = L.UF('token_at', I, I, Val)           # (text id, k) -> k-th token object of the text (or None at the end)
 CARRIED = ('lineno', 'paren_count', 'ast')       # lexer fields PLY reads but does not initialise itself
+# what each carried field decides: line numbers in messages (C20), which line breaks are separators and hence
+# which texts are accepted (C06, C15), which tree is returned (C17)
+RESET_PROPS = {'lineno': ['C11', 'C20'], 'paren_count': ['C11', 'C06', 'C15'], 'ast': ['C11', 'C06', 'C17']}
 RESET_VALUE = {'lineno': L.IntV(1), 'paren_count': L.IntV(0), 'ast': L.NoneV, 'lexpos': L.IntV(0)}
 
 
@@ -44,7 +47,7 @@ def e_LRParser_parse(stubs, ex, recv, args, kwargs):
     lr = L.simp(Val.oref(lx))
     ex.event('ply_parse', recv, text, lx)
     for f in CARRIED:
-        ex.prove('C11:%s:resets[%s]-before-the-parser-reads-it' % (fn(ex), f), ['C11', 'C20' if f == 'lineno' else 'C11', 'C15' if f == 'paren_count' else 'C11'],
+        ex.prove('C11:%s:resets[%s]-before-the-parser-reads-it' % (fn(ex), f), RESET_PROPS[f],
                  ex.get_field(lr, f) == RESET_VALUE[f], {'watch': {f: ex.get_field(lr, f)}})
     ex.havoc(['F_lineno', 'F_paren_count', 'F_lexpos', 'F_ast'])
     ex.havoc_alloc()
@@ -79,7 +82,7 @@ def e_Lexer_token(stubs, ex, recv, args, kwargs):
         ex.lex_first_token = False
         if getattr(ex, 'lex_check_resets', True):
             for f in ('lineno', 'paren_count'):
-                ex.prove('C11:%s:resets[%s]-before-the-lexer-reads-it' % (fn(ex), f), ['C11', 'C18'],
+                ex.prove('C11:%s:resets[%s]-before-the-lexer-reads-it' % (fn(ex), f), RESET_PROPS[f] + ['C18'],
                          ex.get_field(lr, f) == RESET_VALUE[f], {'watch': {f: ex.get_field(lr, f)}})
     ex.havoc(['F_lineno', 'F_paren_count', 'F_lexpos'])
     ex.havoc_alloc()
@@ -335,7 +338,7 @@ def list_names_loop(ex, env, i):
     inputs = [e for e in ex.events if e[0] == 'lex_input']
     out = []
     for f in ('lineno', 'paren_count'):
-        out.append(('resets[%s]-before-the-lexer-reads-it' % f, ['C11', 'C18'],
+        out.append(('resets[%s]-before-the-lexer-reads-it' % f, RESET_PROPS[f] + ['C18'],
                     z3.Implies(i == 0, ex.get_field(lr, f) == RESET_VALUE[f])))
     out.append(('text-fed-before-the-first-token-is-read', ['C18', 'C11'], len(inputs) == 1))
     return out
